@@ -1,6 +1,7 @@
 /* C10 / C16 unit locate.width: mpt_node_locate compares a path element with a node name of ANY length (the name length
  * field is 16 bit, names beyond the inline capacity live in external storage): a node is found under exactly its own
  * name - also when the name is longer than 255 bytes - and not under a name that differs in its last character.
+ * Variant BACKWARD: the same through the backward search from a successor node.
  * Bounded: names of <= LMAX identical characters (the content is irrelevant to the length handling). */
 #include "verif.h"
 #include <errno.h>
@@ -21,9 +22,21 @@ void harness(void)
 	h_name[in_len] = 0; h_query[in_len] = 0;
 	if (!in_same) h_query[in_len - 1] = 'b';
 	n.ident._len = (uint16_t) (in_len + 1); n.ident._charset = MPT_CHARSET(UTF8); n.ident._base = h_name;
+#ifdef BACKWARD
+	/* the named node has an unnamed successor; the search starts there and runs backwards ("previous" / "last" lookup) */
+	{ MPT_STRUCT(node) m = MPT_NODE_INIT;
+	  V_REQ(in_pos == 0 || in_pos == -1);
+	  n.next = &m; m.prev = &n;
+	  r = mpt_node_locate(&m, in_pos, h_query, (int) in_len, -1);
+	  V_CHECK("locate: the backward search finds a predecessor under its own name (external storage)", IMP(in_same, r == &n));
+	  V_CHECK("locate: backward search, not under a different name of the same length", IMP(!in_same, r == 0));
+	  V_COVER("predecessor found", r == &n);
+	}
+#else
 	r = mpt_node_locate(&n, in_pos, h_query, (int) in_len, -1);
 	V_CHECK("locate: a node is found under its own name at every length", IMP(in_same && in_pos != -1, r == &n));
 	V_CHECK("locate: not under a different name of the same length", IMP(!in_same, r == 0));
 	V_COVER("name longer than 255 bytes found", r == &n && in_len > 255);
+#endif
 	V_CANARY();
 }
